@@ -54,7 +54,7 @@ func TestBifurcation(t *testing.T) {
 		adjSoft := mbt.Bool(in, "adjSoft")
 		// replay-only dimensions (the model's prediction does not depend on them):
 		// via = "head": the candidate is the soft-failing answer of the getter's Head() to a stale Syncer.Head() call
-		//               instead of a gossip delivery; fk = "notfound": the getter fails with header.ErrNotFound;
+		//               instead of a gossip delivery; fk = "notfound" / "deadline": the getter fails with header.ErrNotFound / with an error that wraps context.DeadlineExceeded;
 		// failAll: every request from failAt on fails (peers that cannot serve the heights at all)
 		via, fk, failAll := mbt.Str(in, "via"), mbt.Str(in, "fk"), mbt.Bool(in, "failAll")
 		forge := func(chain *vh.Chain, h uint64, salt uint64) *vh.Header {
@@ -80,6 +80,10 @@ func TestBifurcation(t *testing.T) {
 				if failAt != 0 && (c.N+1 == failAt || (failAll && c.N+1 > failAt)) {
 					if fk == "notfound" {
 						return nil, fmt.Errorf("height %d: %w", c.H, header.ErrNotFound)
+					}
+					if fk == "deadline" { // the peers' own request timed out; the caller's context is alive
+						time.Sleep(time.Second)
+						return nil, fmt.Errorf("height %d: %w", c.H, context.DeadlineExceeded)
 					}
 					return nil, errors.New("scripted getter failure")
 				}
